@@ -199,7 +199,9 @@ def make_enum(maxlen):
 
 TOKENS = ["(", ")", ",", " ", "/", "(", ")", ",", "Red", "Blue", "Event", "Sensory-event", "Label/", "Label/x y",
           "Event/Sensory-event", "Item/Object", "#", ":", "sc:", "xx:", "\t", " ", " ", "\n", "Def/", "{", "}",
-          "sc:Hiccup", "Duration/3 ms", "RED", "a", "b", "Action/Move/Flex", "  "]
+          "sc:Hiccup", "Duration/3 ms", "RED", "a", "b", "Action/Move/Flex", "  ",
+          # text that is not in Unicode normal form (combining mark, Hangul jamo, compatibility singleton)
+          "Label/Cafe\u0301", "e\u0301", "\u1100\u1161", "\u212b", "\ufb01"]
 
 text_strategy = st.builds(
     lambda toks, sch: {"text": "".join(toks), "schema": sch},
